@@ -1,4 +1,5 @@
 import PyrollModel.Gen.C05
+import PyrollModel.SolveBody
 /-
   SolveGen — the model of `PyrollModel/Solve.lean` instantiated with what the translator read out of
   pyroll/core/unit/unit.py (`PyrollModel/Gen/C05.lean`, regenerated on every run): the element-wise comparison of the
@@ -46,6 +47,27 @@ def initOut (roots : List String) (out : Option Entries) (tmpl : Entries) : Entr
 /-- `Unit.solve(in_profile)` of a unit with `max_iteration_count = maxIter`, `iteration_precision = prec` -/
 def solve (step : S → S × Except Exc (List α)) (maxIter : Nat) (prec : α) (c : Carried α S) : Result α S :=
   Solve.solve (within prec) allQ step (budget maxIter) (if reusesOut then c else { c with hasOut := false })
+
+/-! ### one loop body of a roll pass: what is compared, what is rebuilt (`PyrollModel/SolveBody.lean` with the method tables
+    and resolution orders read from roll_pass/*.py, unit/unit.py, roll/roll.py, hooks.py) -/
+
+/-- the concrete unit classes that have a roll -/
+def passClasses : List String := ["TwoRollPass", "ThreeRollPass"]
+
+/-- the hook hosts a unit of these classes owns -/
+def passHosts : List String := ["in_profile", "self", "out_profile", "roll"]
+
+/-- hosts whose persisted results make up the vector of the stop test, in concatenation order -/
+def resultParts (cls : String) : List String := SolveBody.resultParts Gen.C05.mro Gen.C05.result_methods cls
+
+/-- … in the order their root hooks are evaluated and persisted -/
+def evalParts (cls : String) : List String := SolveBody.resultParts Gen.C05.mro Gen.C05.eval_methods cls
+
+/-- what `reevaluate_cache` of the class does at the start of every loop body -/
+def cacheEffects (cls : String) : List String := SolveBody.cacheEffects Gen.C05.mro Gen.C05.cache_methods cls
+
+/-- the statements of `reevaluate_cache` of the class in execution order (`SolveBody.Eff`) -/
+def cacheProgram (cls : String) : List SolveBody.Eff := SolveBody.program (cacheEffects cls)
 
 def defaultPrec : α := Gen.C05.default_prec_e.eval (fun _ => PyNum.nat 0)
 def defaultMaxIter : Nat := Gen.C05.default_max_iter
